@@ -221,9 +221,14 @@ func TestExecBlockSequences(t *testing.T) {
 			}
 			wantOK := w.out == oReturn
 			key = append(key, fmt.Sprintf("w%d/%d", len(w.steps), w.out))
-			if (r.Status == types.ReceiptStatusSuccessful) != wantOK {
-				t.Fatalf("VERIF-INCONCLUSIVE tx %d status %d, expected success=%v (%s)\n    %s", i, r.Status, wantOK, r.Msg, render())
+			gotOK := r.Status == types.ReceiptStatusSuccessful
+			if gotOK && !wantOK {
+				t.Fatalf("C12 violated (real block executor): tx %d reported successful but its program ends with %s\n    %s", i, outName[w.out], render())
 			}
+			if !gotOK && wantOK {
+				stats.Class("exec:writer_failed_for_gas(create2 collisions)")
+			}
+			wantOK = gotOK // a failed transaction must leave no logs in its receipt
 			// expected logs: own LOG steps + those of successful CREATE children, in program order
 			var want []mlog
 			var report []byte
